@@ -190,6 +190,75 @@ func c05UnknownParts(c *fw.Ctx, rng *fw.RNG) {
 	}
 }
 
+// c05Unencodable: registered codec and hasher, but a value the codec cannot write — a map handed to the raw codec,
+// NaN for dag-json, a node one of whose accessors fails part-way (lib/fnode). Store and ComputeLink must answer
+// with an error and no link, and Store must leave the storage as it was: a link is a function of the value, and
+// there is no value here to be a function of. (A surviving mechanical mutant made ComputeLink return (nil, nil)
+// when the encoder failed.)
+func c05Unencodable(c *fw.Ctx, rng *fw.RNG) {
+	lsys := cidlink.DefaultLinkSystem()
+	ms := &memstore.Store{}
+	lsys.SetReadStorage(ms)
+	lsys.SetWriteStorage(ms)
+	tree := model.Val{K: model.KMap, M: []model.Entry{
+		{K: "a", V: model.Val{K: model.KList, L: []model.Val{{K: model.KInt, I: 1}, {K: model.KString, S: "x"}, {K: model.KBool, B: true}}}},
+		{K: "b", V: model.Val{K: model.KBytes, S: "yz"}},
+		{K: "c", V: model.Val{K: model.KInt, I: int64(rng.Intn(1000))}},
+	}}
+	type probe struct {
+		name  string
+		codec uint64
+		mk    func() datamodel.Node // a fresh node per use: a Fault is consumed by the reads made on it
+	}
+	probes := []probe{
+		{"raw codec given a map", 0x55, func() datamodel.Node { return fnode.New(tree) }},
+		{"raw codec given a string", 0x55, func() datamodel.Node { return basicnode.NewString("s") }},
+		{"dag-json given NaN", 0x0129, func() datamodel.Node {
+			return fnode.New(model.Val{K: model.KList, L: []model.Val{{K: model.KInt, I: 1}, {K: model.KFloat, F: nan()}}})
+		}},
+	}
+	for _, codec := range []uint64{0x71, 0x0129, 0x51, 0x0200} {
+		for _, scalars := range []bool{false, true} {
+			after, scalars := rng.Intn(6), scalars
+			probes = append(probes, probe{fmt.Sprintf("codec 0x%x given a node that fails after %d reads (scalars=%v)", codec, after, scalars), codec,
+				func() datamodel.Node {
+					return fnode.NewFaulty(tree, &fnode.Fault{After: after, Scalars: scalars, Lookups: true})
+				}})
+		}
+	}
+	for _, pr := range probes {
+		pr := pr
+		lp := cidlink.LinkPrototype{Prefix: cid.Prefix{Version: 1, Codec: pr.codec, MhType: 0x12, MhLength: 32}}
+		c.SetCase(func() any { return map[string]any{"family": "unencodable value", "probe": pr.name} })
+		// does the codec itself refuse this node? (a fault placed after the last read the encoder makes never fires)
+		var direct error
+		if enc, err := multicodec.LookupEncoder(pr.codec); err == nil {
+			if c.Guard("C05:Encode:unencodable", func() { direct = enc(pr.mk(), &bytes.Buffer{}) }) {
+				continue
+			}
+		}
+		if direct == nil {
+			c.Count("unencodable_probes_encodable_after_all", 1)
+			continue
+		}
+		before := len(ms.Bag)
+		var l1, l2 datamodel.Link
+		var e1, e2 error
+		if !c.Guard("C05:ComputeLink:unencodable", func() { l2, e2 = lsys.ComputeLink(lp, pr.mk()) }) && (e2 == nil || l2 != nil) {
+			c.Deviate("C05:unencodable:computelink-no-error", fmt.Sprintf("%s: the codec's own Encode fails (%v) but ComputeLink returned link=%v err=%v", pr.name, direct, l2, e2))
+		}
+		if !c.Guard("C05:Store:unencodable", func() { l1, e1 = lsys.Store(linking.LinkContext{}, lp, pr.mk()) }) && (e1 == nil || l1 != nil) {
+			c.Deviate("C05:unencodable:store-no-error", fmt.Sprintf("%s: the codec's own Encode fails (%v) but Store returned link=%v err=%v", pr.name, direct, l1, e1))
+		}
+		if len(ms.Bag) != before {
+			c.Deviate("C05:unencodable:store-left-a-block", fmt.Sprintf("%s: Store failed (%v) and the storage holds %d blocks, %d before", pr.name, e1, len(ms.Bag), before))
+		}
+		c.Count("unencodable_probes", 1)
+	}
+}
+
+func nan() float64 { z := 0.0; return z / z }
+
 func mustMH(code uint64) []byte {
 	d := make([]byte, 32)
 	return append(append(model.Varint(code), model.Varint(32)...), d...)
@@ -199,6 +268,9 @@ func (c05) RunCase(c *fw.Ctx, rng *fw.RNG, batch, i int) {
 	c05Init()
 	if i%200 == 7 {
 		c05UnknownParts(c, rng)
+	}
+	if i%100 == 53 {
+		c05Unencodable(c, rng)
 	}
 	// --- configuration of this history
 	useCidMem := rng.Bool()
